@@ -95,8 +95,25 @@ func (w *World) AddClient(name string, dev *Device, gca glow.PublicKey, servers 
 func (c *ClientNode) WriteServerMap(m map[glow.PublicKey]client.GCAServer) {
 	// SerializeGCAServerMap iterates a map; the file content is a set, the
 	// order does not matter to the loader.
-	raw, err := client.SerializeGCAServerMap(m)
-	must(err)
+	// Written with the harness's own encoder of the documented layout (key,
+	// ban byte, location length as a little-endian uint16, location, three
+	// little-endian uint16 ports): the set-up must not depend on the
+	// serializer under test.
+	var raw []byte
+	for _, k := range sortedServerKeys(m) {
+		e := m[k]
+		raw = append(raw, k[:]...)
+		if e.Banned {
+			raw = append(raw, 1)
+		} else {
+			raw = append(raw, 0)
+		}
+		raw = binary.LittleEndian.AppendUint16(raw, uint16(len(e.Location)))
+		raw = append(raw, e.Location...)
+		raw = binary.LittleEndian.AppendUint16(raw, e.HttpPort)
+		raw = binary.LittleEndian.AppendUint16(raw, e.TcpPort)
+		raw = binary.LittleEndian.AppendUint16(raw, e.UdpPort)
+	}
 	must(os.WriteFile(filepath.Join(c.Dir, client.GCAServerMapFile), raw, 0644))
 }
 
